@@ -52,6 +52,9 @@ func (s Scenario) String() string {
 		if t.Drop {
 			d = "+drop"
 		}
+		if t.HoldMs > 0 {
+			d += fmt.Sprintf("+hold%dms", t.HoldMs)
+		}
 		p = append(p, fmt.Sprintf("%s#%d/%s%s/%s", t.Method, t.N, t.Phase, d, t.Victim))
 	}
 	return s.Program + "[" + strings.Join(p, ",") + "]"
@@ -68,6 +71,8 @@ type Outcome struct {
 	Recovered  bool           `json:"recovered"`
 	RecoverErr string         `json:"recover_err"`
 	Attempts   int            `json:"attempts"`
+	RescanErr    string       `json:"rescan_err,omitempty"`
+	RescanFailed bool         `json:"rescan_failed,omitempty"`
 	Millis     int64          `json:"millis"`
 	Log        []faultsys.Event `json:"log,omitempty"`
 }
@@ -216,6 +221,7 @@ func runScenario(sc Scenario) (out Outcome) {
 	}
 	want := ref.Stages[main.Root()]
 	schema := main.Nodes[main.Root()].Schema
+	var firstRes *exec.Result
 	attempt := func() (runErr, scanErr, diff string, hang bool) {
 		spec := *main
 		spec.RunID = runner.NewRunID()
@@ -225,6 +231,9 @@ func runScenario(sc Scenario) (out Outcome) {
 			if e != nil {
 				runErr = e.Error()
 				return
+			}
+			if firstRes == nil {
+				firstRes = res
 			}
 			rows, e := runner.Scan(ctx, res, schema)
 			if e != nil {
@@ -255,6 +264,34 @@ func runScenario(sc Scenario) (out Outcome) {
 	}
 	if out.RowsDiff != "" || sc.Trace {
 		return
+	}
+	// recovery of the scan: losses have stopped; scanning the Result that the (successful) first run
+	// returned must deliver the reference rows within three attempts (lost task outputs are recomputed)
+	if firstRes != nil {
+		rescanned := false
+		for a := 1; a <= 3 && !rescanned; a++ {
+			var rows []progen.Row
+			var e error
+			ok := runner.WithTimeout(runTimeout, func() { rows, e = runner.Scan(ctx, firstRes, schema) })
+			if !ok {
+				out.Hang = "during a re-scan of the first run's result\n" + stacks()
+				return
+			}
+			if e != nil {
+				out.RescanErr = e.Error()
+				time.Sleep(300 * time.Millisecond)
+				continue
+			}
+			if d := progen.CheckRows(want, rows); d != nil {
+				out.RowsDiff = "re-scan of the first run's result: " + d.Error()
+				return
+			}
+			rescanned = true
+		}
+		if !rescanned {
+			out.RescanFailed = true
+			return
+		}
 	}
 	// recovery: losses have stopped; the same Func must complete within three attempts
 	for a := 1; a <= 3; a++ {
@@ -423,6 +460,9 @@ func judge(sc Scenario, out *Outcome, crashed bool, log string) (violation, sig 
 		}
 		return "", ""
 	}
+	if out.RescanFailed {
+		return fmt.Sprintf("the first run reported success; after the losses stopped, three scans of its Result all failed (lost task outputs must be recomputed): %s", tail(out.RescanErr, 1500)), "no-rescan:" + sc.Program
+	}
 	if !out.Recovered {
 		return fmt.Sprintf("after the losses stopped and replacement machines could be started, %d further attempts of the same Func all failed: %s", out.Attempts, tail(out.RecoverErr, 1500)), "no-recovery:" + sc.Program
 	}
@@ -483,6 +523,10 @@ func plansFor(program string, counts map[string]int) []Scenario {
 					out = append(out, Scenario{Program: program, Plan: []faultsys.Trigger{{Method: m, N: k, Phase: phase, Victim: victim}}})
 					if phase == "after" && victim == "target" {
 						out = append(out, Scenario{Program: program, Plan: []faultsys.Trigger{{Method: m, N: k, Phase: phase, Victim: victim, Drop: true}}})
+						if m == "Worker.Run" || m == "Worker.Compile" || m == "Worker.Read" && k < 6 {
+							// the reply reaches the driver only after it has learnt of the loss
+							out = append(out, Scenario{Program: program, Plan: []faultsys.Trigger{{Method: m, N: k, Phase: phase, Victim: victim, HoldMs: 1800}}})
+						}
 					}
 				}
 			}
@@ -498,7 +542,7 @@ func TestVerifC02SingleKill(t *testing.T) {
 		t.Skip()
 	}
 	rec := vt.New("C02", "single-kill-enumeration",
-		"fault enumeration: for each program of the fault suite (map-only, reduce, fold, cogroup, two-stage shuffle, reshuffle root, repartition+flatmap, reshard, multi-batch map, a Func over a reused Result, a reused Result fed directly into a shuffle) a traced failure-free run on the bigmachine test system (no machine combiners) gives the number of RPCs per method; then EVERY single-kill plan (method in {Worker.Compile, Worker.Run, Worker.Stat, Worker.Read incl. the reads of the final scan, Supervisor.Keepalive, Worker.TaskStats, Worker.FuncLocations} x occurrence (capped: 6, Worker.Read 40) x {before the call, after its reply, after its reply with the reply dropped} x victim {the call's target, another machine}) is executed in a disposable child process (quick tier: a seeded sample of the plans); oracle: Run and scan either report an error or deliver exactly the reference rows, never block (150 s), and after the plan is disabled the same Func succeeds with the reference rows within 3 attempts; non-trivial = the kill fired; distinct by (program, plan)")
+		"fault enumeration: for each program of the fault suite (map-only, reduce, fold, cogroup, two-stage shuffle, reshuffle root, repartition+flatmap, reshard, multi-batch map, a Func over a reused Result, a reused Result fed directly into a shuffle) a traced failure-free run on the bigmachine test system (no machine combiners) gives the number of RPCs per method; then EVERY single-kill plan (method in {Worker.Compile, Worker.Run, Worker.Stat, Worker.Read incl. the reads of the final scan, Supervisor.Keepalive, Worker.TaskStats, Worker.FuncLocations} x occurrence (capped: 6, Worker.Read 40) x {before the call, after its reply, after its reply with the reply dropped, after its reply with the reply delivered 1.8 s later i.e. after the driver has learnt of the loss (Worker.Run/Compile/Read)} x victim {the call's target, another machine}) is executed in a disposable child process (quick tier: a seeded sample of the plans); oracle: Run and scan either report an error or deliver exactly the reference rows, never block (150 s), and after the plan is disabled (a) if the first Run had succeeded, scanning its Result again delivers the reference rows within 3 attempts and (b) the same Func succeeds with the reference rows within 3 attempts; non-trivial = the kill fired; distinct by (program, plan)")
 	seen := map[string]bool{}
 	docs, only := vt.Replays(tSingle)
 	if len(docs) > 0 {
